@@ -109,6 +109,7 @@ type interp struct {
 	ufApps      map[string][]*ufApp
 	ufCount     int
 	onceDone    map[*value]bool
+	stubCalls   map[string]int
 	atomicVals  map[*value]value
 	lastTime    *Term
 	reachedNow  []string
@@ -146,6 +147,7 @@ func (in *interp) resetPath() {
 	in.steps = 0
 	in.ufApps = map[string][]*ufApp{}
 	in.onceDone = map[*value]bool{}
+	in.stubCalls = map[string]int{}
 	in.atomicVals = map[*value]value{}
 	in.lastTime = nil
 	in.reachedNow = nil
